@@ -19,7 +19,10 @@ RULE = ("breadth-first exploration of the state (low byte of the group's "
         "with at most two frames in flight, for group "
         "layouts with 0-3 writer datagrams (direct and FMMU) and for a group "
         "that is registered / not registered / has an index >= MAX_PROGS; "
-        "plus random foreign frames. Every transition executes the real "
+        "plus random foreign frames, identifiers beyond the program table "
+        "whose low 16 bits alias a slot in use, and a registration leg (2-3 "
+        "masters sharing one program table register / unregister groups "
+        "with colliding random numbers). Every transition executes the real "
         "dispatcher bytecode (and through the tail call the real group "
         "program) in the reference machine; every 50th transition is "
         "replayed in the kernel with a real PROG_ARRAY and must agree")
@@ -46,6 +49,12 @@ def plan(tier, seed):
                 continue
             shards.append(dict(seed=seed, layout=lay, reg=reg, depth=depth,
                                tier=tier))
+    # identifiers beyond the program table whose low 16 bits alias a slot
+    # that is in use
+    for idx in (0x10005, 0x1f0005, 0x7fff0005, 0x10000, 65536 * 7 + 63):
+        shards.append(dict(seed=seed, layout="w", reg="bigindex",
+                           depth=6 if tier == "quick" else 9, tier=tier,
+                           index=idx))
     # at most two frames in flight, from every value of the counter byte
     for lay in (["w", "r", "wf"] if tier == "quick" else LAYOUTS):
         for part in range(4):
@@ -54,6 +63,7 @@ def plan(tier, seed):
                                tier=tier, maxinflight=2,
                                starts=list(range(part, 256, 4))))
     shards.append(dict(seed=seed, foreign=True, tier=tier))
+    shards.append(dict(seed=seed, registration=True, tier=tier))
     return shards
 
 
@@ -61,9 +71,24 @@ def run_world(params, res, monitor):
     rng = random.Random(params["seed"] * 7 + hash(params["layout"]) % 1000)
     with kern.session() as sess:
         reg = params["reg"]
-        w = dispatch.World(sess, params["layout"],
-                           registered=(reg == "registered"),
-                           index=70 if reg == "bigindex" else 5)
+        try:
+            w = dispatch.World(sess, params["layout"],
+                               registered=(reg == "registered"),
+                               index=params.get("index") or (
+                                   70 if reg == "bigindex" else 5),
+                               decoy=params.get("decoy"))
+        except Exception as ex:
+            import traceback
+            res.case(["world", params["layout"], reg, params.get("decoy")])
+            res.violation(
+                "unexplained:dispatcher-or-group-program-cannot-be-built",
+                f"layout {params['layout']} ({reg}, earlier group "
+                f"{params.get('decoy')}): {type(ex).__name__}: "
+                f"{str(ex)[-300:]}",
+                case=dict(layout=params["layout"], reg=reg,
+                          decoy=params.get("decoy")),
+                witness=traceback.format_exc()[-1500:])
+            return
         try:
             starts = [0, 1, 2, 254, 255, rng.randrange(256)]
             if params["tier"] == "quick":
@@ -74,6 +99,7 @@ def run_world(params, res, monitor):
             def on_step(rec):
                 res.count("transitions")
                 res.case([params["layout"], params["reg"],
+                          params.get("decoy"),
                           params.get("maxinflight", 3), rec["state"],
                           rec["frame"]], nontrivial=bool(rec["state"][1]))
                 res.count("action[" + str(rec["action"]) + "]")
@@ -162,8 +188,12 @@ def monitor22(w, rec, res, params):
     else:
         if rec["ran"]:
             res.violation("unexplained:program-ran-unregistered",
-                          "a group program ran for an unregistered group",
-                          case=desc)
+                          "a group program ran for a frame whose group has "
+                          "no registered program", case=desc)
+        if rec.get("counters_touched"):
+            res.violation("unexplained:foreign-identifier-steps-a-counter",
+                          "a frame with an identifier beyond the program "
+                          "table changed a group's loop counter", case=desc)
         # bounded progress: without further injections the frame reaches
         # user space within a few passes
         if rec["action"] == dispatch.TX:
@@ -229,8 +259,88 @@ def foreign_leg(params, res):
             w.close()
 
 
+def registration_leg(params, res):
+    """2-3 masters share one program table (as ParallelEtherCat processes
+    do); fast groups are registered and unregistered in random order with
+    the random group number drawn from 0..3 so that collisions are likely:
+    live groups always hold distinct numbers whose table slots are occupied,
+    and ending one group leaves the others' slots alone"""
+    import ebpfcat.ebpfcat as ecmod
+    from .. import ecat
+    from ebpfcat.ebpfcat import FastSyncGroup, SyncManager
+    rng = random.Random(params["seed"] * 13 + 1)
+    old_rr = ecmod.randrange
+    ecmod.randrange = lambda n, *a: rng.randrange(4)
+    try:
+        for round_ in range(30 if params["tier"] == "quick" else 300):
+            with kern.session() as sess:
+                nm = rng.choice([2, 2, 3])
+                ecs = [ecat.OfflineFastEtherCat(sess)]
+                for _ in range(nm - 1):
+                    e2 = ecat.OfflineFastEtherCat(sess)
+                    e2.programs = ecs[0].programs
+                    ecs.append(e2)
+                live = {}            # key -> (ctx, index, master)
+                history = []
+                n = 0
+                for step in range(rng.randint(3, 7)):
+                    if live and (len(live) >= 3 or rng.random() < 0.4):
+                        k = rng.choice(sorted(live))
+                        ctx, idx, m = live.pop(k)
+                        history.append(("end", k, idx))
+                        try:
+                            ctx.__exit__(None, None, None)
+                        except Exception as ex:
+                            res.violation(
+                                "unexplained:unregistering-raised",
+                                f"ending group {k} (number {idx}) raised "
+                                f"{type(ex).__name__}: {ex}",
+                                case=dict(history=history))
+                            live.clear()
+                            break
+                    else:
+                        m = rng.randrange(nm)
+                        t, v = ecat.make_terminal(ecs[m], 1 + n, [("H",)],
+                                                  [("H",)], use_fmmu=False)
+                        sg = FastSyncGroup(ecs[m], [dispatch.CountDev(
+                            v[SyncManager.IN, 0], v[SyncManager.OUT, 0])])
+                        sg.allocate()
+                        ctx = ecs[m].register_sync_group(sg)
+                        idx = ctx.__enter__()
+                        live[n] = (ctx, idx, m)
+                        history.append(("register", n, idx, m))
+                        n += 1
+                    res.case(["registration", round_, step, history[-1]])
+                    res.count("registration_steps")
+                    idxs = [i for _, i, _ in live.values()]
+                    desc = dict(history=history)
+                    if len(set(idxs)) != len(idxs):
+                        res.violation(
+                            "unexplained:two-live-groups-one-number",
+                            f"live groups hold numbers {idxs}", case=desc)
+                        break
+                    empty = [i for i in idxs if kern.map_lookup(
+                        ecs[0].programs, struct.pack("<I", i), 4) is None]
+                    if empty:
+                        res.violation(
+                            "unexplained:live-group-without-program-slot",
+                            f"slots {empty} of live groups are empty",
+                            case=desc)
+                        break
+                for ctx, idx, m in live.values():
+                    try:
+                        ctx.__exit__(None, None, None)
+                    except Exception:
+                        pass
+    finally:
+        ecmod.randrange = old_rr
+
+
 def run_shard(params):
     res = Result()
+    if params.get("registration"):
+        registration_leg(params, res)
+        return res
     if params.get("foreign"):
         foreign_leg(params, res)
     else:
@@ -250,6 +360,8 @@ def finalize(res, tier, seed):
     for k in ("foreign[ethertype]", "foreign[cmd0]", "foreign[short]"):
         if not c.get(k):
             res.inconc(f"{k} never tried")
+    if not c.get("registration_steps"):
+        res.inconc("registration leg did not run")
     if not c.get("unregistered_chain_steps"):
         res.inconc("unregistered group never circulated a frame")
 
